@@ -91,4 +91,35 @@ def mk (n cap : Nat) : PSys := { cap := cap, locals := List.replicate n {} }
 
 def PSys.resident (s : PSys) : List Item := s.shared ++ s.locals.flatMap (·.items)
 
+/-- operation histories on the plain queue system (what the `pq` component executes) -/
+inductive POp where
+  | gpush (x : Item) | gpop | lpush (i : Nat) (x : Item) | lpop (i start : Nat)
+deriving Repr, DecidableEq
+
+def POp.valid (n : Nat) : POp → Bool
+  | .lpush i _ => decide (i < n)
+  | .lpop i _ => decide (i < n)
+  | _ => true
+
+def POp.pushed : POp → List Item
+  | .gpush x => [x] | .lpush _ x => [x] | _ => []
+
+def pstep (s : PSys) : POp → Option (PSys × Option Item)
+  | .gpush x => some (pushShared s x, none)
+  | .gpop => some (popShared s)
+  | .lpush i x => (pushLocal s i x).map (fun s' => (s', none))
+  | .lpop i start => if i < s.locals.length then some (popLocal s i start) else none
+
+def prun : PSys → List POp → Option (PSys × List Item)
+  | s, [] => some (s, [])
+  | s, o :: os =>
+    match pstep s o with
+    | none => none
+    | some (s', r) =>
+      match prun s' os with
+      | none => none
+      | some (s'', outs) => some (s'', r.toList ++ outs)
+
+def ppushedOf (ops : List POp) : List Item := ops.flatMap POp.pushed
+
 end Oc.Queue.Plain
